@@ -1848,7 +1848,7 @@ class Engine:
             elif has_uninit(own, 200):
                 pass      # never initialised by this thread: only the other threads' values can be read
             else:
-                lv = ite_leaves(own)
+                lv = self.candidates(as_bv(own, size * 8))
                 if lv is None:
                     return None
                 opts |= lv
